@@ -3,7 +3,7 @@ import numpy
 import torch
 from hypothesis import strategies as st
 
-from pbt.harness import Sub, Violation, SutRaised, require, sut
+from pbt.harness import Sub, Violation, SutRaised, require, sut, Unchanged
 from pbt import gen
 
 from tangermeme.design import greedy_substitution
@@ -126,7 +126,8 @@ def greedy_case(case, ctx):
         return changed, l0 - l1
 
     # (i) one step
-    X1 = sut(greedy_substitution, model, X, motifs, y, max_iter=1, **kw)
+    with Unchanged("greedy-arguments-modified", motifs=motifs, y=y, mask=mask, alphabet=alpha):
+        X1 = sut(greedy_substitution, model, X, motifs, y, max_iter=1, **kw)
     require(torch.equal(X, Xc), "greedy-input-modified", "")
     require(tuple(X1.shape) == (1, 4, L), "greedy-shape", lambda: str(tuple(X1.shape)))
     accepted, _ = check_step(X, X1, "single step")
